@@ -9,6 +9,7 @@ import (
 	"io"
 	"sort"
 	"strings"
+	"sync"
 	"testing"
 	"time"
 
@@ -59,6 +60,12 @@ func catalogue() []fault {
 			for at := 0; at <= 3; at++ {
 				out = append(out, fault{"eof", at, codes.OK, burst, after})
 			}
+			// the stream itself stays up, but after `at` answers the server sends a result for an
+			// operation id the client does not know: a receive-side failure produced by the
+			// client's own processing of a response
+			for at := 0; at <= 4; at += 2 {
+				out = append(out, fault{"recv-unmatched", at, codes.Unknown, burst, after})
+			}
 			for _, c := range []codes.Code{codes.Unavailable, codes.Internal, codes.Canceled} {
 				for at := 1; at <= 6; at += 2 {
 					out = append(out, fault{"send-late", at, c, burst, after})
@@ -97,7 +104,7 @@ func TestCheck(t *testing.T) {
 		child.Fold(run, fmt.Sprintf("child-%d", b), o, false)
 	})
 	run.Assume("after a Send failure the stream's status is what Recv returns (the gRPC contract); a clean end of stream (EOF / status OK) is exercised for hangs and leaks only - no error is demanded there")
-	run.Finish("fault enumeration over a scripted stub stream: the Send with index 1..6 fails, or the stream fails on the receive side after 0..5 responses, for each of 8 gRPC status codes (plus clean EOF after 0..3 responses; a Send failure whose status reaches the receive side 150 ms later; a receive-side failure when everything has been answered and the client had converged; a failure on a stream nothing was ever sent on), while the application queues a burst of 1/3/6/20 further requests; then Close, or Reset + Connect on a fresh stream + a further exchange that must converge. Oracles (each wait under a watchdog, a firing counts only with a proven permanent block): every Q returns, Done is signalled, AwaitConverged returns the recorded error (never nil, never the context's), Close/Reset return and the receiver is not inside Recv on the failed stream when they do, no goroutine with a frame of the client package survives, and after Reset the client has no stale pending operations, results or errors. The same faults are also injected over the real gRPC stack (in-memory transport): the handler ends the RPC with each of the 8 status codes, or the client's transport is cut under the RPC, after 0..4 answers; there the recorded receive error must carry the status the handler returned. Repeated per tier with different interleaving (quick: 4 repetitions, thorough: 40). Distinct = by fault case", 100, false)
+	run.Finish("fault enumeration over a scripted stub stream: the Send with index 1..6 fails, or the stream fails on the receive side after 0..5 responses, for each of 8 gRPC status codes (plus clean EOF after 0..3 responses; a Send failure whose status reaches the receive side 150 ms later; a receive-side failure when everything has been answered and the client had converged; a failure on a stream nothing was ever sent on; a response carrying a result for an operation id the client does not know), while the application (one goroutine, or four at once) queues a burst of 1/3/6/20 further requests; then Close, or Reset + Connect on a fresh stream + a further exchange that must converge. Oracles (each wait under a watchdog, a firing counts only with a proven permanent block): every Q returns, Done is signalled, AwaitConverged returns the recorded error (never nil, never the context's), Close/Reset return and the receiver is not inside Recv on the failed stream when they do, no goroutine with a frame of the client package survives, and after Reset the client has no stale pending operations, results or errors. The same faults are also injected over the real gRPC stack (in-memory transport): the handler ends the RPC with each of the 8 status codes, or the client's transport is cut under the RPC, after 0..4 answers; there the recorded receive error must carry the status the handler returned. Repeated per tier with different interleaving (quick: 4 repetitions, thorough: 40). Distinct = by fault case", 100, false)
 }
 
 func nhReq(id uint64) *spb.ModifyRequest {
@@ -193,6 +200,22 @@ func runCase(col sink, st *stepper, caseID string, f fault, rep int) {
 			if f.at == 0 {
 				s.Fail(ferr)
 			}
+		case "recv-unmatched":
+			get := autoAnswer(s, f.at)
+			inner := s.OnSend
+			failed := false
+			bad := &spb.ModifyResponse{Result: []*spb.AFTResult{{Id: 999999, Status: spb.AFTResult_FAILED}}}
+			s.OnSend = func(n int, m *spb.ModifyRequest) {
+				inner(n, m)
+				if get() >= f.at && !failed {
+					failed = true
+					s.Push(bad)
+				}
+			}
+			if f.at == 0 {
+				failed = true
+				s.Push(bad)
+			}
 		case "eof":
 			get := autoAnswer(s, f.at)
 			inner := s.OnSend
@@ -233,10 +256,35 @@ func runCase(col sink, st *stepper, caseID string, f fault, rep int) {
 	if rep%2 == 1 {
 		time.Sleep(time.Duration(rep*150) * time.Microsecond) // let the fault land before the burst
 	}
-	for k := 0; k < f.burst; k++ {
-		st.current = fmt.Sprintf("Q (burst request %d of %d)", k+1, f.burst)
-		c.Q(nhReq(id))
-		id++
+	if f.burst >= 6 && rep%4 == 3 {
+		// the burst comes from four application goroutines at once: every one of the Q calls
+		// must return
+		st.current = fmt.Sprintf("Q (burst of %d requests from 4 goroutines at once)", f.burst)
+		var wg sync.WaitGroup
+		for gq := 0; gq < 4; gq++ {
+			wg.Add(1)
+			go func(gq int) {
+				defer wg.Done()
+				for k := gq; k < f.burst; k += 4 {
+					c.Q(nhReq(id + uint64(k)))
+				}
+			}(gq)
+		}
+		wdone := make(chan struct{})
+		go func() { wg.Wait(); close(wdone) }()
+		select {
+		case <-wdone:
+		case <-time.After(25 * time.Second):
+			panic("watchdog")
+		}
+		id += uint64(f.burst)
+		col.Count("bursts_queued_from_several_goroutines", 1)
+	} else {
+		for k := 0; k < f.burst; k++ {
+			st.current = fmt.Sprintf("Q (burst request %d of %d)", k+1, f.burst)
+			c.Q(nhReq(id))
+			id++
+		}
 	}
 	if f.side == "recv-idle" || f.side == "recv-unused" {
 		// the healthy stream answers everything: the client converges, and only then the stream fails
